@@ -338,7 +338,9 @@ def _range_loops(v, bid, variant):
                 src = c[1][3][0]
                 if src[0] == "agg" and src[2].startswith("Range::"):
                     out.add((src[3][0], src[3][1]))
-                elif src[0] == "call" and src[2] == "std::iter::Iterator::enumerate" and len(src[3]) == 1:
+                while src[0] == "call" and src[2] in ("std::iter::Iterator::filter", "std::iter::Iterator::filter_map", "std::iter::Iterator::map") and len(src[3]) == 2:
+                    src = src[3][0]      # filters drop elements, they do not change the range that is walked
+                if src[0] == "call" and src[2] == "std::iter::Iterator::enumerate" and len(src[3]) == 1:
                     # `for (j, x) in xs.iter().enumerate()` ranges over 0..len(xs) (cbcore._project gives j and x their index-loop form)
                     out.add((("const", "usize", "0_usize", 0), ("call", src[1], "<[T]>::len", (src[3][0],))))
     return out
@@ -531,6 +533,8 @@ def cell_init(v, base):
         x = a[3][0]
         if x[0] == "const":
             return x[3]
+    if a[0] == "call" and not a[3] and a[2] == "std::default::Default::default":
+        return 0        # `AtomicUsize::default()` / `AtomicBool::default()` (a #[derive(Default)] state struct): zero / false
     return None
 
 
@@ -589,6 +593,18 @@ def site_arms(v, bid, site):
                 out.append(var)
                 break
     return out
+
+
+def _site_on_no_path(v, bid, e):
+    """True if no path of any arm of the body passes through the block of effect e, and no arm was cut short (so that
+    'not enumerated' means 'not reachable', given the constant decisions the enumeration takes)."""
+    b = v.P.bodies[bid]
+    blk = e.site[1]
+    for var in (VARIANTS if b.is_handler() else [None]):
+        for p in v.arm(bid, var):
+            if blk in p.blocks:
+                return False
+    return True
 
 
 def thunk_callers(v, target):
@@ -1045,7 +1061,11 @@ def C02(ctx, model, tier, models):
                             probs.append("send after refusal")
                 ctx.ob("REL-xor", key("H:REL-xor:refusal-final"), not probs, "the refusal is the only message of its path", e.loc)
                 handled = True
-            if not handled:
+            if not handled and not arms and _site_on_no_path(v, b, e):
+                # the block of this send lies on no enumerated path of any arm of its handler: dead code in this body (the
+                # other branch of a helper inlined at a call that fixes its argument, e.g. `end(Some(error))`)
+                ctx.ob("CEN-terminal", key("CEN-terminal:dead-site:%s" % VSHORT.get(e.variant, e.variant)), True, "terminal send at a site no path of its handler reaches", e.loc)
+            elif not handled:
                 ctx.ob("CEN-terminal", key("CEN-terminal:%s-in-%s" % (VSHORT.get(e.variant, e.variant), "".join(VSHORT.get(a, "-") for a in arms))), False,
                        "terminal message to the sink at a site that is in no once-class (census, fail closed)", e.loc)
             else:
@@ -1920,14 +1940,30 @@ def is_factory_param(v, e):
 
 
 def closure_returns(v, cid):
-    """[(guards, returned expr)] per returning path of a helper closure."""
+    """[(guards, returned expr)] per returning path of a helper closure.  `cond.then(|| x)` / `cond.then_some(x)` as the returned
+    value count as the two returns they stand for: Some(x) under cond, None under its negation."""
     out = []
     for p in v.arm(cid, None, inline=0):
         if p.end != "return":
             continue
         rets = [ev[1] for ev in p.events if ev[0] == "ret"]
         gs = [a for (_, a, _) in guards_before(p, len(p.events))]
-        out.append((gs, rets[-1] if rets else None))
+        r = rets[-1] if rets else None
+        if r is not None and r[0] == "call" and r[2].endswith(("bool>::then", "bool>::then_some")) and len(r[3]) == 2:
+            val = None
+            if r[2].endswith("then_some"):
+                val = r[3][1]
+            elif r[3][1][0] == "agg" and r[3][1][1] == "closure" and r[3][1][2] in v.P.bodies:
+                cb = v.P.bodies[r[3][1][2]]
+                straight = all(blk["term"]["k"] not in ("switch", "yield") for blk in cb.blocks.values() if not blk["cleanup"])
+                calls = [blk for blk in cb.blocks.values() if not blk["cleanup"] and blk["term"]["k"] == "call"]
+                if straight and not calls:
+                    val = v.P.link(cb.origin_local(0))
+            if val is not None:
+                out.append((gs + [norm_pred(r[3][0], 1)], ("agg", "adt", "Option::Some", (val,))))
+                out.append((gs + [norm_pred(r[3][0], 0)], ("agg", "adt", "Option::None", ())))
+                continue
+        out.append((gs, r))
     return out
 
 
@@ -2559,6 +2595,13 @@ def demand_lemmas(ctx, v):
     for e, b in pull_sends(v):
         role = v.op.roles.get(b)
         arms = site_arms(v, b, e)
+        if role == "THUNK" and arms == [None]:
+            # a Pull inside a local closure: it is sent in the arms that call the closure
+            callers = thunk_callers(v, b)
+            croles = {v.op.roles.get(cb) for cb, _, _ in callers}
+            if len(croles) == 1 and all(cv is not None for _, cv, _ in callers):
+                role = croles.pop()
+                arms = sorted({cv for _, cv, _ in callers}, key=VARIANTS.index)
         ok = False
         if role == "DOWN" and arms == ["Pull"]:
             ok = True
@@ -2570,7 +2613,7 @@ def demand_lemmas(ctx, v):
             ok = True
         elif fam == "for_each" and role == "UP" and set(arms) <= {"Handshake", "Data"}:
             ok = True
-        ctx.ob("PL-pull", v.key(b, None, "PL-pull", "site-%s" % "".join(VSHORT[a] for a in arms)), ok, "Pull site in %s arms %s" % (v.label(b), arms), e.loc)
+        ctx.ob("PL-pull", v.key(b, None, "PL-pull", "site-%s" % "".join(VSHORT.get(a, "-") for a in arms)), ok, "Pull site in %s arms %s" % (v.label(b), arms), e.loc)
 
 
 @prop("C14", "other",
@@ -3508,6 +3551,13 @@ def discharge_panic(v, b, var, p, i, e, hint, tbcells):
     if hint == "panic":
         dead = {"DOWN": {"Handshake", "Data"}, "UP": {"Pull"}, "UP_INNER": {"Pull"}}.get(role, set())
         ok = var in dead
+        if not ok:
+            # `let Some(x) = cell.load_full() else { panic!(..) }` / `match &*cell.load() { None => panic!(..), .. }`: an explicit panic
+            # decided by the emptiness of a cell is an `expect` on that cell, and is discharged like one
+            nones = [a for (_, a, _) in guards_before(p, i) if ((a[0] == "opt" and a[2] == "none") or (a[0] == "discr" and a[2] == 0)) and a[1][0] == "cellload"]
+            if nones:
+                shim = type("PanicAsExpect", (), {"subject": ("someof", nones[-1][1]), "tracing": False, "loc": e.loc, "site": e.site, "kind": "panic"})()
+                return discharge_panic(v, b, var, p, i, shim, "expect", tbcells)
         return ("K-dead", ok, "explicit panic in %s.%s: %s" % (role, VSHORT.get(var, "-"),
                 "the arm's variant cannot arrive (A4/A5; DOWN.D by type, W1)" if ok else "this arm is reachable under the protocol"))
     if hint in ("expect", "unwrap", "unwrap_unchecked"):
@@ -3578,6 +3628,21 @@ def discharge_panic(v, b, var, p, i, e, hint, tbcells):
                 okh = all(any(x.kind == "cell" and x.op == "store" and cell_key(x.cell) == ck and x.value[2] == "Option::Some" for j, x in ev_effects(pp)) for pp in returning(v.arm(b, "Handshake")))
                 same = any(h == b for h, _ in storers)
                 return ("K-init", okh and same, "the handler's own Handshake arm (which A1 orders first) stores the cell on every path" if okh and same else "the cell is not stored by this handler's Handshake arm on every path")
+            if role == "THUNK":
+                # a local closure called from handler arms (`let request_next = || ..`): the expect is judged where it runs, on
+                # each caller's path with the closure's events in place
+                callers = thunk_callers(v, b)
+                results = []
+                for (cb, cv, ce) in callers:
+                    for pp in v.arm(cb, cv, inline=1):
+                        for jj, x in ev_effects(pp):
+                            if x.site == e.site and x.kind == e.kind:
+                                results.append(discharge_panic(v, cb, cv, pp, jj, x, hint, tbcells))
+                if callers and results and all(r[1] for r in results):
+                    return ("K-init", True, "in every calling arm: " + results[0][2])
+                if results:
+                    bad = [r for r in results if not r[1]][0]
+                    return ("K-init", False, "in a calling arm: " + bad[2])
             return ("K-init", False, "expect on a talkback cell in %s.%s has no discharge" % (role, VSHORT.get(var, "-")))
         if locks or any(x[0] == "call" and x[2].endswith("::take") for x in walk(subj)):
             # K-value: res.take().unwrap() behind res_done == false, res_done := res.is_none() in the same iteration
@@ -3611,7 +3676,7 @@ def discharge_panic(v, b, var, p, i, e, hint, tbcells):
             return ("K-count", False, "the rcu closure does not publish Some(datum.clone()) into the member's own slot on every (re-)run: a slot counted as filled may be None")
         return ("K-count", ok, "tuple unwrap guarded by n_data == 0, read after this member's publication (closure: slot := Some(d.clone())), counter announced after publishing" if ok else "tuple unwrap not behind n_data == 0 / publication order")
     if hint.startswith("assert:overflow"):
-        subj = e.subject
+        subj = resolve_phis(p, i, e.subject)      # an operand that went through `let x = match ..` / `.ok().map(..)` reads as on this path
         inner = subj[1] if subj[0] == "overflowed" else subj
         if inner[0] == "binop":
             a, k = inner[2], inner[3]
@@ -3634,6 +3699,14 @@ def discharge_panic(v, b, var, p, i, e, hint, tbcells):
                 return ("K-arith", ok, "counter from %s decremented once per member (%d sites): the value returned is >= 1" % (init, n_sites) if ok else "decrement of a counter that may be 0")
             if base[0] == "param" and inner[1].startswith("Add"):
                 lt = [g for (_, g, _) in guards_before(p, i) if g[0] == "cmp" and g[3] == "<" and g[1] == base]
+                if not lt:
+                    # `(t < max).then(|| t + 1)`: the closure runs only if the receiver is true
+                    for pb in v.op.bodies:
+                        for x in v.all_effects(pb):
+                            if x.kind == "hocall" and x.callee.endswith("bool>::then") and b in (x.get("closures") or []) and x.args:
+                                g = norm_pred(x.args[0], 1)
+                                if g[0] == "cmp" and g[3] == "<" and g[1] == base:
+                                    lt.append(g)
                 return ("K-arith", bool(lt), "t + 1 behind t < max" if lt else "unguarded increment of a parameter")
             if inner[1].startswith("Sub") and _is_member_count(v, base) and k[0] == "const" and k[3] == 1 and v.op.roles.get(b) in ("UP", "UP_INNER"):
                 return ("K-arith", True, "member count - 1 inside a member handler: a member handler runs only if there is at least one member")
@@ -3895,6 +3968,11 @@ def canon(e, depth=0):
     if t == "index": return "%s[%s]" % (c(e[1]), c(e[2]))
     if t == "agg":
         if e[1] in ("closure", "coroutine"):
+            if e[2] not in BODYKEY and SKELETON_PROG is not None and e[2] in SKELETON_PROG.bodies:
+                # a closure absorbed into its caller (inlined helper closure, closure of an iterator chain): named by where it is written
+                b = SKELETON_PROG.bodies[e[2]]
+                anc = SKELETON_PROG.ancestors(e[2])
+                return "closure<%s@%s>" % (anc[-1] if anc else e[2], b.span.get("sp"))
             return "closure<%s>" % BODYKEY.get(e[2], e[2])
         return "%s(%s)" % (e[2] or e[1], ",".join(c(x) for x in e[3]))
     if t == "call":
@@ -3916,6 +3994,9 @@ BODYKEY = {}
 BODYKEYS = {"default": {}, "tracing": {}}
 
 
+SKELETON_PROG = None
+
+
 def body_pair_key(model, bid):
     b = model.prog.bodies[bid]
     op = model.body_op.get(bid, "?")
@@ -3924,18 +4005,21 @@ def body_pair_key(model, bid):
 
 def skeleton(v, bid, var):
     """Set of visible-event sequences of one arm (tau removed)."""
-    global BODYKEY
+    global BODYKEY, SKELETON_PROG
     BODYKEY = BODYKEYS[v.P.config]
+    SKELETON_PROG = v.P
     out = set()
     for p in v.arm(bid, var, inline=0):
         toks = []
-        for ev in p.events:
+        for idx, ev in enumerate(p.events):
             if ev[0] == "eff":
                 e = ev[1]
                 if e.tracing or not effect_visible(v.P, e):
                     continue
                 if e.kind == "send":
-                    toks.append("send:%s:%s:%s" % (v.cls_of(e)[0], e.variant, canon(e.payload) if e.payload is not None else "-"))
+                    # the payload as it reads on this path (a value that went through `let x = match ..` is resolved)
+                    pl = resolve_phis(p, idx, e.payload) if e.payload is not None else None
+                    toks.append("send:%s:%s:%s" % (v.cls_of(e)[0], e.variant, canon(pl) if pl is not None else "-"))
                 elif e.kind == "atomic":
                     if e.op == "load":
                         continue
@@ -4527,7 +4611,8 @@ for _pid in ("C01", "C02", "C03", "C04", "C05", "C08", "C09", "C10", "C11", "C14
     _wrap(_pid, lemma_state_per_subscription)
 for _pid in ("C03", "C04", "C09", "C14", "C11", "C08"):
     _wrap(_pid, lemma_store_every_greeting)
-for _pid in ("C02", "C11"):
+for _pid in ("C02", "C05", "C11"):
+    # C05: an output that completes while an inner it has subscribed is still alive cannot deliver that inner's later failure
     _wrap(_pid, lambda ctx, v: lemma_flatten_inner_indicator(ctx, v) if v.family == "flatten" else None)
 def _take_flag_arms(ctx, v):
     if v.family == "take":
